@@ -8,7 +8,7 @@ use palette::encoding::{self, Linear};
 use palette::lms::matrix::{Bradford, UnitMatrix, VonKries};
 use palette::rgb::{Rgb, RgbSpace, RgbStandard};
 use palette::white_point::*;
-use palette::{Hsl, Hsv, Lab, Lch, Lchuv, Luv, Oklab, Oklch, Xyz};
+use palette::{Hsl, Hsluv, Hsv, Hwb, Lab, Lch, Lchuv, Luv, Okhsl, Okhsv, Okhwb, Oklab, Oklch, Xyz};
 
 macro_rules! for_pairs {
     ($mac:ident; $args:tt; [$($a:ident),*]; $bs:tt) => { $( for_pairs!(@inner $mac; $args; $a; $bs); )* };
@@ -111,6 +111,57 @@ where S: RgbStandard + 'static, S::Space: RgbSpace, <S::Space as RgbSpace>::Whit
     }
 }
 
+
+/// "… and back to equal RGB components": gray -> colour space `$C` -> linear RGB of the same space (tight: no transfer function in the way) and
+/// -> the encoded standard; and the space's own exact neutral (chroma/saturation set to 0, any hue) -> linear RGB.
+/// `$neutral` rewrites the component array of `$C` into the exact neutral of the same lightness (None: the space has no such form).
+macro_rules! neutral_back {
+    (@lin direct, $S:ty, $Sp:ty, $T:ty, $C:ty, $a:expr) => { into_array(Rgb::<Linear<$Sp>, $T>::from_color_unclamped(from_array::<$C>($a))) };
+    (@lin via_enc, $S:ty, $Sp:ty, $T:ty, $C:ty, $a:expr) => { into_array(Rgb::<$S, $T>::from_color_unclamped(from_array::<$C>($a)).into_linear::<$T>()) };
+    ($out:expr, $grays:expr, $S:ty, $Sp:ty, $sn:expr, $T:ty, $C:ty, $cn:expr, $tol_lin:expr, $tol_enc:expr, $neutral:expr, $how:ident) => {{
+    let tag = format!("{}:{}:{}", $cn, $sn, <$T as Fl>::TAG);
+    let okhsl_f32 = $cn == "Okhsl" && <$T as Fl>::TAG == "f32";
+    let (tol_lin, tol_enc): (f64, f64) = if okhsl_f32 { (1.5e-3, 1e-3) } else { ($tol_lin, $tol_enc) };
+    // an exact Ok* neutral comes back through M1inv·(1,1,1), the published D65, not the crate's 5-digit one: C14.oklab_neutral_back decides a
+    // spread of at most 4e-4 (and more than 1e-4) in every D65 space; 5e-4 with rounding
+    let tol_neutral: f64 = if $cn.starts_with("Ok") { 5e-4 } else { tol_lin };
+    let neutral: Option<fn([$T; 3]) -> [$T; 3]> = $neutral;
+    for i in 0..=$grays {
+        let g = i as f64 / $grays as f64;
+        let ga: [$T; 3] = arr_of([g, g, g]);
+        let c = <$C>::from_color_unclamped(from_array::<Rgb<$S, $T>>(ga));
+        let ca: [$T; 3] = into_array(c);
+        let lin_want: [$T; 3] = into_array(Rgb::<Linear<$Sp>, $T>::from_color_unclamped(from_array::<Rgb<$S, $T>>(ga)));
+        let lin: [$T; 3] = neutral_back!(@lin $how, $S, $Sp, $T, $C, ca);
+        let enc: [$T; 3] = into_array(Rgb::<$S, $T>::from_color_unclamped(from_array::<$C>(ca)));
+        let spread = |v: &[$T; 3]| v.iter().map(|x| x.to64()).fold(f64::MIN, f64::max) - v.iter().map(|x| x.to64()).fold(f64::MAX, f64::min);
+        let dist = |v: &[$T; 3], w: f64| v.iter().map(|x| (x.to64() - w).abs()).fold(0.0, f64::max);
+        if lin.iter().chain(enc.iter()).all(|v| v.finite()) {
+            let gl = lin_want[0].to64();
+            // relative to the gray's own linear value: the matrices and white point tables are linear maps, their mismatch scales with the colour
+            let e_lin = spread(&lin) / (gl + 1e-3);
+            $out.maxi(&format!("gray-roundtrip-lin-dist(info):{}:{}", $cn, <$T as Fl>::TAG), dist(&lin, gl) / (gl + 1e-3));
+            $out.maxi(&format!("gray-roundtrip-lin:{}:{}", $cn, <$T as Fl>::TAG), e_lin);
+            $out.check(e_lin <= tol_lin, &format!("gray-roundtrip-lin:{}", tag), || format!("gray {} ({:?}) -> {:?} -> linear {:?}, want {}", g, ga, ca, lin, gl));
+            let e_enc = spread(&enc);   // the property asks for equal components; how close they are to the original gray is C01's round trip
+            $out.maxi(&format!("gray-roundtrip-enc-dist(info):{}:{}", $cn, <$T as Fl>::TAG), dist(&enc, g));
+            $out.maxi(&format!("gray-roundtrip-enc:{}:{}", $cn, <$T as Fl>::TAG), e_enc);
+            $out.check(e_enc <= tol_enc, &format!("gray-roundtrip-enc:{}", tag), || format!("gray {} -> {:?} -> {:?}", g, ca, enc));
+        } else { $out.count("cls:gray-back-nonfinite(C07)"); }
+        if let Some(nf) = neutral {
+            let na = nf(ca);
+            let lin: [$T; 3] = neutral_back!(@lin $how, $S, $Sp, $T, $C, na);
+            if lin.iter().all(|v| v.finite()) {
+                let m = lin.iter().map(|x| x.to64().abs()).fold(0.0, f64::max);
+                let e = spread(&lin) / (m + 1e-3);
+                $out.maxi(&format!("neutral-back-spread:{}:{}", $cn, <$T as Fl>::TAG), e);
+                $out.check(e <= tol_neutral, &format!("neutral-back-equal:{}", tag), || format!("neutral {:?} -> linear {:?}", na, lin));
+            } else { $out.count("cls:gray-back-nonfinite(C07)"); }
+        }
+        $out.count("cls:gray-back");
+    }
+}} }
+
 pub fn run(tier: &str, seed: u64, dir: &str) {
     let mut out = Out::new("C14", dir);
     let mut rng = Rng::new(seed);
@@ -130,6 +181,43 @@ pub fn run(tier: &str, seed: u64, dir: &str) {
         let xf: [f32; 3] = arr_of(x);
         let a: [f32; 3] = into_array(Xyz::<D50, f32>::adapt_from_unclamped(from_array::<Xyz<D50, f32>>(xf)));
         out.check(a.iter().zip(&xf).all(|(p, q)| p.to_bits() == q.to_bits()), "adapt-identity:f32", || format!("{:?} -> {:?}", xf, a));
+    }
+    // back from every colorimetric space to equal RGB components
+    {
+        let gb = if tier == "thorough" { 4096 } else { 256 };
+        fn ab0<T: Fl>(a: [T; 3]) -> [T; 3] { [a[0], T::of(0.0), T::of(0.0)] }            // Lab, Luv, Oklab: (L, 0, 0)
+        fn lch0<T: Fl>(a: [T; 3]) -> [T; 3] { [a[0], T::of(0.0), T::of(123.0)] }         // Lch, Lchuv, Oklch: (L, 0, any hue)
+        fn hs0<T: Fl>(a: [T; 3]) -> [T; 3] { [T::of(-77.0), T::of(0.0), a[2]] }          // Hsv, Hsl, Hsluv, Okhsl, Okhsv: (any hue, 0, v)
+        macro_rules! cie_back { ($S:ty, $Sp:ty, $sn:expr, $W:ty, $T:ty, $tl:expr, $te:expr) => {
+            neutral_back!(out, gb, $S, $Sp, $sn, $T, Xyz<$W, $T>, "Xyz", $tl, $te, None, direct);
+            neutral_back!(out, gb, $S, $Sp, $sn, $T, Lab<$W, $T>, "Lab", $tl, $te, Some(ab0::<$T>), direct);
+            neutral_back!(out, gb, $S, $Sp, $sn, $T, Luv<$W, $T>, "Luv", $tl, $te, Some(ab0::<$T>), direct);
+            neutral_back!(out, gb, $S, $Sp, $sn, $T, Lch<$W, $T>, "Lch", $tl, $te, Some(lch0::<$T>), direct);
+            neutral_back!(out, gb, $S, $Sp, $sn, $T, Lchuv<$W, $T>, "Lchuv", $tl, $te, Some(lch0::<$T>), direct);
+            neutral_back!(out, gb, $S, $Sp, $sn, $T, Hsv<$S, $T>, "Hsv", $tl, $te, Some(hs0::<$T>), via_enc);
+            neutral_back!(out, gb, $S, $Sp, $sn, $T, Hsl<$S, $T>, "Hsl", $tl, $te, Some(hs0::<$T>), via_enc);
+            neutral_back!(out, gb, $S, $Sp, $sn, $T, Hwb<$S, $T>, "Hwb", $tl, $te, None, via_enc);
+        } }
+        macro_rules! ok_back { ($S:ty, $Sp:ty, $sn:expr, $T:ty, $tl:expr, $te:expr) => {
+            neutral_back!(out, gb, $S, $Sp, $sn, $T, Oklab<$T>, "Oklab", $tl, $te, Some(ab0::<$T>), direct);
+            neutral_back!(out, gb, $S, $Sp, $sn, $T, Oklch<$T>, "Oklch", $tl, $te, Some(lch0::<$T>), direct);
+            neutral_back!(out, gb, $S, $Sp, $sn, $T, Okhsl<$T>, "Okhsl", $tl, $te, Some(hs0::<$T>), direct);
+            neutral_back!(out, gb, $S, $Sp, $sn, $T, Okhsv<$T>, "Okhsv", $tl, $te, Some(hs0::<$T>), direct);
+            neutral_back!(out, gb, $S, $Sp, $sn, $T, Okhwb<$T>, "Okhwb", $tl, $te, None, direct);
+            neutral_back!(out, gb, $S, $Sp, $sn, $T, Hsluv<D65, $T>, "Hsluv", $tl, $te, Some(hs0::<$T>), direct);
+        } }
+        macro_rules! both { ($m:ident, $($a:tt)*) => { $m!($($a)*, f32, TOL_LIN_F32, TOL_ENC_F32); $m!($($a)*, f64, TOL_LIN_F64, TOL_ENC_F64); } }
+        // tolerances: the 7-digit matrix pairs are inverse to 1e-6 (C14.rgb_matrix_pairs_inverse), M1/M1inv to 1e-9 (C14.oklab_back_matrices): 2e-6 relative
+        // at f64 (measured 4.4e-7); f32 adds ~30 roundings of O(1) values: 2e-5 (measured 3.8e-6).  Okhsl's toe / gamut-intersection arithmetic
+        // is markedly less accurate at f32 (measured 3.1e-4 relative near black): 1.5e-3.
+        const TOL_LIN_F32: f64 = 2e-5; const TOL_ENC_F32: f64 = 2e-5; const TOL_LIN_F64: f64 = 2e-6; const TOL_ENC_F64: f64 = 2e-6;
+        both!(cie_back, encoding::Srgb, encoding::Srgb, "Srgb", D65); both!(cie_back, encoding::AdobeRgb, encoding::AdobeRgb, "AdobeRgb", D65);
+        both!(cie_back, encoding::Rec709, encoding::Srgb, "Rec709", D65); both!(cie_back, encoding::Rec2020, encoding::Rec2020, "Rec2020", D65);
+        both!(cie_back, encoding::DisplayP3, encoding::DisplayP3, "DisplayP3", D65); both!(cie_back, encoding::DciP3, encoding::DciP3, "DciP3", encoding::DciP3);
+        both!(cie_back, encoding::ProPhotoRgb, encoding::ProPhotoRgb, "ProPhotoRgb", D50); both!(cie_back, Linear<encoding::Srgb>, encoding::Srgb, "LinSrgb", D65);
+        both!(ok_back, encoding::Srgb, encoding::Srgb, "Srgb"); both!(ok_back, encoding::AdobeRgb, encoding::AdobeRgb, "AdobeRgb");
+        both!(ok_back, encoding::Rec709, encoding::Srgb, "Rec709"); both!(ok_back, encoding::Rec2020, encoding::Rec2020, "Rec2020");
+        both!(ok_back, encoding::DisplayP3, encoding::DisplayP3, "DisplayP3"); both!(ok_back, Linear<encoding::Srgb>, encoding::Srgb, "LinSrgb");
     }
     // Oklab of D65 white = (1, 0, 0); Oklab/Oklch of grays neutral
     for i in 0..=256 {
